@@ -9,7 +9,7 @@ from harness.project import to_grid
 
 SPECIAL_FRACS = [(0, 1), (1, 2), (1, 3), (2, 3), (1, 4), (3, 4), (1, 6), (5, 6), (1, 8), (3, 8)]
 ELEMENTS = [1, 6, 7, 8, 9, 15, 16, 17, 26, 35]
-SYMBOLS = {1: "H", 6: "C", 7: "N", 8: "O", 9: "F", 15: "P", 16: "S", 17: "Cl", 26: "Fe", 35: "Br"}
+SYMBOLS = {1: "H", 6: "C", 7: "N", 8: "O", 9: "F", 14: "Si", 15: "P", 16: "S", 17: "Cl", 26: "Fe", 35: "Br", 53: "I"}
 
 
 def rotations(ops):
@@ -259,8 +259,19 @@ def project_rows(d, n, gram, u, with_cell=False, max_cc=60, tol=1e-6):
 
 
 # ------------------------------------------------------------------ molecular crystals (C04, C03, C13, C14)
-COV = {1: 0.23, 6: 0.68, 7: 0.68, 8: 0.68, 9: 0.64}      # used only to *design* inputs; the thresholds shipped
-MASS_Z = {1: 1.00794, 6: 12.0107, 7: 14.0067, 8: 15.9994, 9: 18.998403}   # to TLC are read from the library
+# Covalent radii (CSD) and standard atomic weights of the elements the generated molecules are made of: the harness's copy of
+# Molecules!CovRadius100 / Mass1000.  They are independent knowledge (not read from the library): tables proposed from them are
+# certified by TLC against the specification's own constants (ThresholdsOK, MassesOK), else OOD.
+COV = {1: 0.23, 6: 0.68, 7: 0.68, 8: 0.68, 9: 0.64, 14: 1.20, 15: 1.05, 16: 1.02, 17: 0.99, 35: 1.21, 53: 1.40}
+MASS_Z = {1: 1.008, 6: 12.011, 7: 14.007, 8: 15.999, 9: 18.998, 14: 28.086, 15: 30.974, 16: 32.065, 17: 35.453, 35: 79.904,
+          53: 126.904}
+# terminal heavy atoms and the window (A) their bond to the parent is drawn from: ordinary single-bond lengths
+HEAVY_BOND = {17: (1.68, 1.86), 35: (1.86, 2.04), 53: (2.06, 2.36), 16: (1.72, 1.92)}
+
+
+def _clear(za, zb):
+    """Smallest allowed non-bonded contact (A): well clear of any sane bonding threshold."""
+    return max(2.2, COV[za] + COV[zb] + 0.4 + 0.25)
 
 
 def det3(g):
@@ -274,7 +285,7 @@ def _gdot(gram, d):
 
 
 def gen_molecular(rng, row, nmols=1, sizes=(2, 3), n=48, vol_per_atom=32.0, with_h=True, max_tries=400,
-                  boundary_prob=0.6, oblique=False, gram_fn=None, min_vol=150.0):
+                  boundary_prob=0.6, oblique=False, gram_fn=None, min_vol=150.0, halogens=0.0):
     """A molecular crystal on the grid: `nmols` rigid mini-molecules (trees of bonded atoms) on general
     positions of setting `row`, bonded distances <= 1.5 A (X-H <= 1.12 A), every other contact >= 2.2 A.
     Returns a recipe dict (see build_crystal) with 'mols' = list of lists of asym indices (1-based) and
@@ -298,6 +309,13 @@ def gen_molecular(rng, row, nmols=1, sizes=(2, 3), n=48, vol_per_atom=32.0, with
         light = cand[(d2 >= 0.85 ** 2) & (d2 <= 1.12 ** 2)]
         if len(heavy) == 0:
             continue
+        hvec = {}
+        if halogens:
+            rng_h = range(-8, 9)
+            cand_h = np.array([(a, b, c) for a in rng_h for b in rng_h for c in rng_h if (a, b, c) != (0, 0, 0)], dtype=np.int64)
+            d2h = _gdot(gram, cand_h) * s2
+            hvec = {z: cand_h[(d2h >= lo ** 2) & (d2h <= hi ** 2)] for z, (lo, hi) in HEAVY_BOND.items()}
+            hvec = {z: v for z, v in hvec.items() if len(v)}
         asym, mols, bonds = [], [], []
         ok = True
         for m, size in enumerate(szs):
@@ -313,7 +331,12 @@ def gen_molecular(rng, row, nmols=1, sizes=(2, 3), n=48, vol_per_atom=32.0, with
                 good = True
                 for k in range(1, size):
                     parent = rng.randrange(len(pts))
-                    if with_h and len(light) and zs[parent] != 1 and rng.random() < 0.3:
+                    if zs[parent] in HEAVY_BOND:
+                        parent = 0
+                    if hvec and zs[parent] != 1 and rng.random() < halogens:
+                        z = rng.choice(sorted(hvec))
+                        vecs = hvec[z]
+                    elif with_h and len(light) and zs[parent] != 1 and rng.random() < 0.3:
                         z, vecs = 1, light
                     else:
                         z, vecs = rng.choice([6, 7, 8, 9]), heavy
@@ -324,7 +347,7 @@ def gen_molecular(rng, row, nmols=1, sizes=(2, 3), n=48, vol_per_atom=32.0, with
                     for j, pj in enumerate(pts):
                         if j == parent:
                             continue
-                        if _gdot(gram, (q - pj)[None, :])[0] * s2 < 2.2 ** 2:
+                        if _gdot(gram, (q - pj)[None, :])[0] * s2 < _clear(z, zs[j]) ** 2:
                             good = False
                     if not good:
                         break
@@ -368,8 +391,11 @@ def gen_molecular(rng, row, nmols=1, sizes=(2, 3), n=48, vol_per_atom=32.0, with
             base = (pa // n) * n
             diff = (uc[:, None, :] + cells[None, :, :] + base[None, None, :]) - pa[None, None, :]
             dd = _gdot(gram, diff) * s2
-            close = np.argwhere(dd < 2.2 ** 2)
+            close = np.argwhere(dd < (3.5 if halogens else 2.2) ** 2)
+            keys = list(allpts.keys())
             for bi, ci in close:
+                if dd[bi, ci] >= _clear(s["z"], asym[allpts[keys[bi]]]["z"]) ** 2:
+                    continue
                 q = uc[bi] + cells[ci] + base
                 # allowed: the atom itself, or an intended bonded partner at its given (unwrapped) position
                 match = [sj for sj, t in enumerate(asym) if tuple(t["p"]) == tuple(int(x) for x in q)]
@@ -390,21 +416,25 @@ def gen_molecular(rng, row, nmols=1, sizes=(2, 3), n=48, vol_per_atom=32.0, with
             s["label"] = "%s%d" % (SYMBOLS[s["z"]], i + 1)
         mols = [sorted(newidx[a] for a in m) for m in mols]
         bonds = [[newidx[a], newidx[b]] for a, b in bonds]
-        return {"number": row["number"], "choice": row["choice"], "n": n, "gram": gram, "u": u, "asym": asym,
-                "mols": mols, "bonds": bonds, "route": "params"}
+        # the scale is a multiple of 1e-6 A^2 exactly (u2m), so that TLC can certify thresholds in grid units
+        u2m = int(round(u * u * 1e6))
+        if not (0 < u2m < 2 ** 31):
+            continue
+        return {"number": row["number"], "choice": row["choice"], "n": n, "gram": gram, "u": math.sqrt(u2m / 1e6), "u2m": u2m,
+                "asym": asym, "mols": mols, "bonds": bonds, "route": "params"}
     return None
 
 
 def bond_table(rec, margin=0.08, tolerance=0.4):
-    """Per element pair: [za, zb, lo, hi] in grid units^2 from the *library's* covalent radii: bonded iff
-    Dist2N <= lo; the domain guard demands that no pair distance lies in (lo, hi]."""
-    from chmpy.core.element import Element
+    """Per element pair: [za, zb, lo, hi] in grid units^2 from covalent radii held independently of the library (COV above,
+    certified by TLC against Molecules!CovRadius100): bonded iff Dist2N <= lo; the domain guard demands that no pair distance
+    lies in (lo, hi]."""
     n, u = rec["n"], rec["u"]
     zs = sorted({s["z"] for s in rec["asym"]})
     out = []
     for a in zs:
         for b in zs:
-            thr = Element.from_atomic_number(a).cov + Element.from_atomic_number(b).cov + tolerance
+            thr = COV[a] + COV[b] + tolerance
             lo = int(math.floor(((thr - margin) ** 2) * n * n / (u * u)))
             hi = int(math.ceil(((thr + margin) ** 2) * n * n / (u * u)))
             out.append([a, b, lo, hi])
@@ -412,6 +442,5 @@ def bond_table(rec, margin=0.08, tolerance=0.4):
 
 
 def mass_table(rec):
-    from chmpy.core.element import Element
     zs = sorted({s["z"] for s in rec["asym"]})
-    return [[z, int(round(Element.from_atomic_number(z).mass * 1000))] for z in zs]
+    return [[z, int(round(MASS_Z[z] * 1000))] for z in zs]
